@@ -54,20 +54,27 @@ func trackWitness(t trackSpec) string {
 	}
 	w := fmt.Sprintf("%s,%d,%d,%d,%d,%s,%s", kind, t.timescale, b2i(t.hasStss), b2i(t.hasCtts), b2i(t.co64),
 		strings.Join(spc, "."), strings.Join(ss, "/"))
-	if len(t.sdtp) > 0 {
+	if len(t.sdtp) > 0 || t.elst || t.uniform {
 		w += "," + hx.Hex(t.sdtp)
+	}
+	if t.elst || t.uniform {
+		w += fmt.Sprintf(",e%du%d", b2i(t.elst), b2i(t.uniform))
 	}
 	return w
 }
 
 func parseTrackWitness(s string) (trackSpec, error) {
 	f := strings.Split(s, ",")
-	if len(f) != 7 && len(f) != 8 {
+	if len(f) < 7 || len(f) > 9 {
 		return trackSpec{}, fmt.Errorf("bad track %q", s)
 	}
 	var t trackSpec
-	if len(f) == 8 {
+	if len(f) >= 8 && f[7] != "-" {
 		t.sdtp = hx.UnHex(f[7])
+	}
+	if len(f) == 9 {
+		t.elst = strings.Contains(f[8], "e1")
+		t.uniform = strings.Contains(f[8], "u1")
 	}
 	t.video = f[0] == "v"
 	ts, _ := strconv.ParseUint(f[1], 10, 32)
@@ -173,6 +180,16 @@ func genVideo(r *hx.Rng, zeroDur bool) trackSpec {
 	}
 	t.spc = genSpc(r)
 	t.co64 = r.Intn(6) == 0
+	if len(t.samples) > 0 {
+		t.elst = r.Intn(6) == 0
+	}
+	if r.Intn(8) == 0 { // constant sample size, stsz without table
+		t.uniform = true
+		z := uint32(r.Range(1, 30))
+		for i := range t.samples {
+			t.samples[i].size = z
+		}
+	}
 	if r.Intn(4) == 0 { // sdtp: dependency flags per sample
 		t.sdtp = make([]byte, len(t.samples))
 		for i, s := range t.samples {
